@@ -159,6 +159,30 @@ def main(argv):
                 problems.append({"kind": "correspondence", "stream": st["name"], "case": bad["case"], "impl": bad["impl"],
                                  "tie": bad["tie"], "spec": bad["spec"]})
 
+    # ---------------- a proof obligation or the correspondence broke, but no input on which the PROPERTY fails was met:
+    # search further (fresh seeds of the same streams, within a time budget) before settling for no-failing-input-found
+    if problems and not violations and not args.replay and os.environ.get("VERIF_NO_SEARCH") != "1" \
+            and any(p["kind"] in ("correspondence", "property-file", "build-model", "build") for p in problems):
+        t_search, tried = time.time(), 0
+        for k in range(1, 7):
+            if time.time() - t_search > 150:
+                break
+            try:
+                more = mod.streams("quick", seed + 1000 * k)
+            except Exception as e:  # the generator itself needs the (possibly broken) implementation
+                notes.append(f"search: streams unavailable ({type(e).__name__})")
+                break
+            for st in more:
+                r = run_stream(st, known_open, tier)
+                tried += r["n"]
+                for bad in r["spec_bad"]:
+                    if known_for(bad) is None:
+                        violations.append((st, bad))
+            if violations:
+                break
+        notes.append(f"search for a failing input after a broken obligation: {tried} further cases, "
+                     f"{'found' if violations else 'none found'} in {round(time.time() - t_search, 1)}s")
+
     # stale known findings: a listed case that no longer fails
     if not args.replay:
         hit_hashes = {k["case_hash"] for k, _ in known_hits}
